@@ -55,9 +55,9 @@ fn c02_block_cursor_one_step_from_any_state() {
     std::mem::forget(block);
 }
 
-// @verif prop=C02 id=O2.4 tier=quick unwind=6 timeout=600 stubs="deflate::decode/crc32->stored-block model (unreachable)" bound="Reader whose current block (any pos/size) holds 8 symbolic bytes with the cursor at ANY offset 0..=4: read_exact(4) fast path returns exactly data[cursor..cursor+4], positions advance monotonically" fns="Reader::read_exact,Reader::consume,Reader::virtual_position,Data::as_ref"
+// @verif prop=C02 id=O2.4 tier=quick unwind=2 timeout=600 stubs="deflate::decode/crc32->stored-block model (unreachable)" bound="Reader whose current block (any pos/size) holds 8 symbolic bytes with the cursor at ANY offset 0..=4: read_exact(4) fast path returns exactly data[cursor..cursor+4], positions advance monotonically" fns="Reader::read_exact,Reader::consume,Reader::virtual_position,Data::as_ref"
 #[kani::proof]
-#[kani::unwind(6)]
+#[kani::unwind(2)]
 #[kani::stub(crate::deflate::decode, deflate_model::decode)]
 #[kani::stub(crate::deflate::crc32, deflate_model::crc32)]
 fn c02_reader_read_exact_fast_path_matches_flat_model() {
@@ -133,9 +133,9 @@ fn c13_fill_buf_at_end_of_input_reports_eof() {
 // ------------------------------------------------------------------------------------------------
 // C15/C02: seek with an arbitrary (e.g. corrupt-index supplied) virtual position
 
-// @verif prop=C15,C02 id=O15.bgzf.seek twin=twin_c15_seek_any_virtual_position_on_exhausted_stream tier=quick unwind=3 timeout=900 stubs="deflate::decode/crc32->stored-block model (unreachable)" bound="Reader over a stream with NO bytes left at the seek target (inner = empty), current block an ARBITRARY valid (stale) block; seek(ANY u64 virtual position) then fill_buf/virtual_position: no panic, and since nothing is left to read no byte may be delivered" fns="Reader::seek,Reader::read_block,Reader::read_nonempty_block_with,Reader::fill_buf,Data::set_position,Data::as_ref,Block::virtual_position"
+// @verif prop=C15,C02 id=O15.bgzf.seek twin=twin_c15_seek_any_virtual_position_on_exhausted_stream tier=quick unwind=2 timeout=900 stubs="deflate::decode/crc32->stored-block model (unreachable)" bound="Reader over a stream with NO bytes left at the seek target (inner = empty), current block an ARBITRARY valid (stale) block; seek(ANY u64 virtual position) then fill_buf/virtual_position: no panic, and since nothing is left to read no byte may be delivered" fns="Reader::seek,Reader::read_block,Reader::read_nonempty_block_with,Reader::fill_buf,Data::set_position,Data::as_ref,Block::virtual_position"
 #[kani::proof]
-#[kani::unwind(3)]
+#[kani::unwind(2)]
 #[kani::stub(crate::deflate::decode, deflate_model::decode)]
 #[kani::stub(crate::deflate::crc32, deflate_model::crc32)]
 fn c15_seek_any_virtual_position_on_exhausted_stream() {
